@@ -1,6 +1,6 @@
 CONFIG = {
     "props": "props/C17.v",
-    "runner": {"module": "Verif.model.MerkleTrieSpec", "ident": "check"},
+    "runner": {"module": "Verif.model.MerkleTrieStoreCheck", "ident": "check"},
     "harness": [{
         "name": "merkletrie", "pkg": "./crypto/merkletrie/", "run": "^TestVerifC17$",
         "files": ["crypto/merkletrie/zz_verif_c17_test.go"],
@@ -8,8 +8,8 @@ CONFIG = {
         "env": {
             "quick": {"VERIF_C17_KEYS": 4, "VERIF_C17_LEN": 4, "VERIF_C17_HASH_EVERY": 10,
                       "VERIF_C17_RANDOM": 150, "VERIF_C17_RANDOM_OPS": 120, "VERIF_C17_CYCLES": 1500, "VERIF_C17_MALFORMED": 200},
-            "thorough": {"VERIF_C17_KEYS": 4, "VERIF_C17_LEN": 5, "VERIF_C17_HASH_EVERY": 8,
-                         "VERIF_C17_RANDOM": 3000, "VERIF_C17_RANDOM_OPS": 200, "VERIF_C17_CYCLES": 30000, "VERIF_C17_MALFORMED": 3000},
+            "thorough": {"VERIF_C17_KEYS": 4, "VERIF_C17_LEN": 5, "VERIF_C17_HASH_EVERY": 8, "VERIF_C17_STORE_EVERY": 5,
+                         "VERIF_C17_RANDOM": 3000, "VERIF_C17_RANDOM_OPS": 200, "VERIF_C17_CYCLES": 10000, "VERIF_C17_MALFORMED": 3000},
         },
         "timeout": {"quick": 600, "thorough": 3000},
     }],
@@ -17,19 +17,28 @@ CONFIG = {
             "{Add k, Delete k : k in a universe of 4 three-byte keys sharing prefixes} + {Commit, Evict(true), Evict(false), reload from the committer}, "
             "each followed by RootHash, the page configuration rotating over 7 MemoryConfigs (2..512 nodes/page, cache targets 0..10000, fill factors 0..1, "
             "fan-out thresholds 1..64); plus random long sequences over random 32-byte (and 1..6-byte) keys with forced shared prefixes under random page "
-            "configurations, plus commit/evict/reload cycles with branch-local changes under tiny page configurations (1500 / 30000 sequences), plus a malformed stream (wrong lengths, empty elements). Observed: every Add/Delete/Commit/Evict result, every RootHash digest, "
+            "configurations, plus commit/evict/reload cycles with branch-local changes under tiny page configurations (1500 / 10000 sequences), plus a malformed stream (wrong lengths, empty elements). Observed: every Add/Delete/Commit/Evict result, every RootHash digest, "
             "the final digest vs the digest of a fresh trie built from the sorted final set, and the stored trie read back node by node. "
             "Digests are recomputed by the model's own SHA-512/256 on every 10th (8th) exhaustive case, 1/10 (1/8) of the random and 1/40 (1/32) of the cycle sequences. "
-            "A case is non-trivial when at least two Add/Delete calls changed the set; distinct = distinct case lines.",
+            "For the same runs (quick: all exhaustive sequences, thorough: every 5th; all regression and cycle sequences, 1/8 of the random ones) a second case (st ...) carries the node/page structure of the "
+            "real cache after EVERY operation (in-memory nodes, decoded stored pages, root page, pendingCreated, pendingDeletionPages, deferedPageLoad, the ids "
+            "re-allocated by the commit, the pages released by Evict): the store model (MerkleTrieStore.v) is stepped with these choices and must equal the dump "
+            "after every step; spec on the dump itself: stored pages alone unfold to canon(committed set), memory-over-pages to canon(current set). "
+            "A case is non-trivial when at least two Add/Delete calls changed the set (seq) / it contains a re-allocating commit, a releasing Evict or a reload (st); "
+            "distinct = distinct case lines.",
     "exhaustive": {"quick": True, "thorough": True},
     "explanation": "theorems: for every finite history of Add/Delete/Commit/Evict/reload/RootHash over byte strings of any length the logical trie "
                    "(transcribed node.add/remove/find) equals canon(set) and all results equal the set semantics, for every hash function (unbounded); "
-                   "the paged node store of cache.go is NOT covered by a theorem (suffix _partial) and is compared with the model on the cases above; "
+                   "the paged node store (ids, pages, created/deleted bookkeeping, deferred page load, commit with any admissible re-allocation, evict, reload) "
+                   "is modelled and proved to refine the logical trie for every page size and eviction choice, incl. 'the stored pages contain every node reachable "
+                   "from the committed root' and a refutation witness for the eviction rule before fixes/C17.patch; NOT proved: that cache.go's own re-allocation is "
+                   "always admissible / writes exactly the model's pages (checked against the dumps of every store case), digest caching, page byte encoding; "
                    "'exhaustive' refers to the stated op alphabet / length bound only",
     "assumptions": ["crypto.Hash is SHA-512/256 (the theorems hold for an arbitrary hash function; the Gallina SHA-512/256 is only used to recompute digests in the correspondence run)",
                     "the Committer stores and returns pages faithfully (the package's InMemoryCommitter is used; storage failures / crashes in the middle of Commit are out of scope)"],
     "trusted_base": ["modelled: crypto/merkletrie node.go (find/add/remove/calculateHash pre-image) and trie.go (Add/Delete/RootHash/Commit/Evict, MakeTrie reload) as a logical trie (coq/model/MerkleTrie.v)",
-                     "modelled, not verified: cache.go (node ids, pages, eviction, commit-time re-allocation, page encoding) - invisible in the model, tested by the correspondence run",
+                     "modelled: cache.go node ids / pages / bookkeeping / commit re-allocation (as any renaming passing rho_ok) / evict / reload (coq/model/MerkleTrieStore.v), compared with dumps of the real cache after every operation",
+                     "not modelled: LRU order and cachedNodeCount (any eviction choice is covered by the theorems), cached digests in node.hash, page byte encoding",
                      "coq/model/MerkleTrieSha.v: Gallina transcription of SHA-512/256 used to recompute digests (validated against crypto.Hash by every hashing case)"],
-    "level_note": "proof for the logical trie; paging refinement tested only (theorems *_partial)",
+    "level_note": "proof for the logical trie and for the paged-store model; admissibility of cache.go's own re-allocation choices is tested (root-hash theorems keep *_partial)",
 }
